@@ -10,7 +10,8 @@
                   with the chain of nodes hanging off it (`hnodes`, the retired table of every node,
                   newest first), the virtual clock in seconds (CLOCK_MONOTONIC_RAW tv_sec).
    Ghost state  : per block constructor / destructor counts (`bctor`, `bdtor`: the elements of a block are
-                  constructed / destroyed together by create_block / delete_block), per table: published?,
+                  constructed / destroyed together by create_block / delete_block) and life-cycle status `bst`;
+                  per table: life-cycle status `tst` (speculative / current / retiring / listed / freed / dead),
                   time of the CAS that superseded it, time and number of frees; `stale` (a retire CAS pushed
                   a stamp read in an earlier time unit than the head value it finally beat: DESIGN F4);
                   `uaf` (reads of freed block tables: (table, clock when the pointer was obtained, clock of
